@@ -335,12 +335,14 @@ func genC09Client(t *Tape, sc *Scenario, x *c09X) *Scenario {
 	if t.Chance(1, 8) {
 		// fault stratum: the exchange is broken off somewhere; Auth may return anything but
 		// a success the server's mechanism did not reach
-		x.CliFault = 1 + t.Intn(3)
+		x.CliFault = 1 + t.Intn(4)
 		switch x.CliFault {
 		case 1:
 			sc.Admin = []AdminStep{{At: Dur(t.Intn(60)) * 100 * time.Microsecond, Kind: aClose}}
 		case 2:
 			cs.SrvFaults.FailWriteAt = 1 + t.Intn(8)
+		case 4:
+			cs.CliFailWriteAt = 1 + t.Intn(8) // the client's own writes start to fail
 		default:
 			cs.SrvFaults.BlockWriteAt = 1 + t.Intn(8)
 			sc.Srv.WriteTO = 0
